@@ -624,20 +624,20 @@ class Interp:
             if a[0] not in ("h", "v"):
                 raise Undefined("tally of something other than a header/variable")
             v = self.val(a)
-            vals.append(v)
-            sv = str(v)
-            if sv.strip() == "" :
-                continue
             if v is None:
                 raise Undefined("tally of an absent value")
+            vals.append(v)
+            sv = str(v)
+            if sv.strip() == "":
+                continue   # "Cannot store an empty tracking value": empty values are not tallied
             d = self.vars.setdefault(f"{nm}_{a[1]}", {})
             d[sv] = d.get(sv, 0) + 1
         if len(args) > 1:
-            if any(v is None for v in vals):
-                raise Undefined("tally of an absent value")
+            # docs/functions/tally.md: "the concatenation of the values, pipe delimited"
             key = "|".join(str(v) for v in vals)
-            d = self.vars.setdefault(nm, {})
-            d[key] = d.get(key, 0) + 1
+            if key.strip() != "":
+                d = self.vars.setdefault(nm, {})
+                d[key] = d.get(key, 0) + 1
         return NEUTRAL
 
     def _se_track(self, quals, args):
